@@ -110,6 +110,24 @@ Shapes == <<
                                              Def("Named", TStruct(<<F("name", S0)>>))>>),
   Sh("default-nested", {"default", "ref"}, <<RF(<<F("c", TRef("WithDefaults"))>>),
                                             Def("WithDefaults", TStruct(<<FDef("name", S0, JStr("a")), FDef("on", TBool, JBool(TRUE))>>))>>),
+  \* ---- defaults on OPTIONAL and NULLABLE fields of every kind (enum anonymous / named / integer, scalars, reference, collections)
+  Sh("default-enum-optional", {"default", "enum-str", "optional"}, <<RF(<<
+      Fld("oe", E2, FALSE, FALSE, JStr("b")), Fld("ore", TRef("Color"), FALSE, FALSE, JStr("green")), Fld("oie", TIEnum(<<1, 2>>), FALSE, FALSE, JInt(2))>>),
+      Def("Color", TEnum(<<"red", "green">>))>>),
+  Sh("default-enum-nullable", {"default", "enum-str", "nullable"}, <<RF(<<
+      Fld("one", E2, FALSE, TRUE, JStr("a")), Fld("onre", TRef("Color"), FALSE, TRUE, JStr("red")), Fld("ne", E2, TRUE, TRUE, JStr("b")),
+      Fld("nre", TRef("Color"), TRUE, TRUE, JStr("green"))>>), Def("Color", TEnum(<<"red", "green">>))>>),
+  Sh("default-scalars-nullable", {"default", "nullable"}, <<RF(<<
+      Fld("ns", S0, TRUE, TRUE, JStr("ab")), Fld("ons", S0, FALSE, TRUE, JStr("cd")), Fld("ni", I0, TRUE, TRUE, JInt(1)), Fld("oni", I0, FALSE, TRUE, JInt(2)),
+      Fld("nn", N0, TRUE, TRUE, JNum(15)), Fld("onb", TBool, FALSE, TRUE, JBool(TRUE))>>)>>),
+  Sh("default-collections-optional", {"default", "optional", "array", "map", "ref"}, <<RF(<<
+      Fld("oa", TArr(S0), FALSE, FALSE, JArr(<<JStr("a")>>)), Fld("om", TMap(S0), FALSE, FALSE, JObj(<<P("k1", JStr("a"))>>)),
+      Fld("oc", TRef("Named"), FALSE, FALSE, JObj(<<P("name", JStr("a"))>>))>>), Def("Named", TStruct(<<F("name", S0)>>))>>),
+  \* ---- number defaults that are whole numbers, negative, large, zero, float32
+  Sh("default-num-whole", {"default", "default-num"}, <<RF(<<
+      FDef("ten", N0, JNum(100)), Fld("otwo", N0, FALSE, FALSE, JNum(20)), FDef("neg", N0, JNum(-30)), FDef("big", N0, JNum(2000000000)),
+      FDef("zero", N0, JNum(0)), FDef("frac", N0, JNum(25)), FDef("f32", TNum("float32", NoB, NoB), JNum(20)),
+      Fld("of32", TNum("float32", NoB, NoB), FALSE, FALSE, JNum(-10))>>)>>),
   \* ---- nullable / optional
   Sh("nullable", {"nullable"}, <<RF(<<FNull("ns", S0), FNull("ni", I0), FOptNull("ons", S0), FNull("nt", TTime)>>)>>),
   Sh("optional", {"optional"}, <<RF(<<FOpt("os", S0), FOpt("oi", I0), FOpt("ob", TBool), FOpt("on", N0), FOpt("oc", TRef("Child")),
